@@ -82,3 +82,33 @@ func (h headerKeyStore) Assign(name string) {
 func (h headerKeyStore) Unassign(name string) {
 	delete(h, textproto.CanonicalMIMEHeaderKey(name))
 }
+
+// HasPrefixFold reports whether the header name starts with prefix, ASCII letters compared without case
+// (header names are case-insensitive).
+func HasPrefixFold(name, prefix string) bool {
+	if len(name) < len(prefix) {
+		return false
+	}
+	for i := 0; i < len(prefix); i++ {
+		a, b := name[i], prefix[i]
+		if 'A' <= a && a <= 'Z' {
+			a += 'a' - 'A'
+		}
+		if 'A' <= b && b <= 'Z' {
+			b += 'a' - 'A'
+		}
+		if a != b {
+			return false
+		}
+	}
+	return true
+}
+
+// UnassignPrefix forgets every header whose name starts with prefix (wildcard unset)
+func (h headerKeyStore) UnassignPrefix(prefix string) {
+	for key := range h {
+		if HasPrefixFold(key, prefix) {
+			delete(h, key)
+		}
+	}
+}
